@@ -172,6 +172,7 @@ fn run_file(w: &mut Tape, env: &EnvRef, by_path: bool) -> RunResult {
         encapsulated: false,
         all_undefined: false,
         latin1: false,
+        utf8: false,
     };
     let mut t2 = Tape::generate(w.below(1 << 20) as u64);
     let model = model_items_undef(&ds::gen_dataset(&mut t2, &gcfg));
